@@ -13,3 +13,18 @@ META['C18'] = dict(
     note='Trusted: unsigned __int128 division of libgcc; the harness reading of "last-writer table" = CBRANCH target in decoded bytecode.',
     technique='property-based testing (rapidcheck) with arithmetic reference oracle; exhaustive enumeration in thorough tier',
 )
+
+META['C11'] = dict(
+    text='Generated-input search over (message, outlen, key, chunking, injected counter state, invalid parameter tuples, commitment inputs) against an '
+         'independent RFC 7693 model; 360k cases quick / 8.4M thorough plus a > 4 GiB stream. Exploration, not proof: lengths beyond ~4 GiB and counters '
+         'other than the injected near-wrap values are unexplored.',
+    note='Trusted: model/ref_blake2b.cpp (checked at setup against the RFC vector and 2000 CPython hashlib digests); state injection relies on the public blake2b_state layout.',
+    technique='property-based testing (rapidcheck) against an independent reference model; metamorphic chunking relation',
+)
+META['C12'] = dict(
+    text='All T-table entries enumerated; generated (state,key) pairs and (seed,size,buffer) cases through the four AES functions in both the table-driven and '
+         'the AES-NI instantiation, compared with a FIPS-197 model whose S-box is computed rather than copied. Exploration of a 2^256 domain: the single-byte '
+         'isolating states cover every table entry in every byte route, everything else is sampled.',
+    note='Trusted: model/ref_aes.cpp (self-tested against FIPS-197 App.B and the CPU AESENC/AESDEC at setup). The AES code emitted by the JIT is covered by C04, not here.',
+    technique='property-based testing (rapidcheck) against an independent reference model + differential soft/hard + exhaustive table enumeration',
+)
